@@ -14,10 +14,11 @@ LEVEL_TEXT = ("Theorems in Coq, for every event sequence / configuration / execu
               "attempts, any chunking of a read stream, partial delivery before a retriable failure): the answer is that of the "
               "last attempt only. batcher shutdown at goroutine granularity (Add = increment of the adding counter, closed-check, channel send or failCall, "
               "decrement; Run's receive / timer / close branch with its drain loop; Close; any queue capacity): under every "
-              "interleaving nobody completes twice, and -- with the drain rule of the fixed code (Run returns only when it reads "
-              "adding == 0) -- every call whose Add started has completed exactly once when Run and every Add have returned, with no "
-              "hypothesis on the interleaving; refuted by witness for the drain rule of the code as found (lost call, reproduced, "
-              "fixed by cb6e33f), the no-overlap version kept as partial. (2) write stream: every successful completion pairs the "
+              "interleaving nobody completes twice, and -- with the drain rule of the fixed code (after finding the queue empty Run reads "
+              "adding; at 0 it drains the queue once more) -- every call whose Add started has completed exactly once when Run and every Add have returned, with no "
+              "hypothesis on the interleaving; refuted by witness for the drain rule of the code as found (lost call, reproduced) and for "
+              "the first repair cb6e33f (counter read after the emptiness test, without a final drain: residual loss, reproduced by the "
+              "stress), the no-overlap version kept as partial. (2) write stream: every successful completion pairs the "
               "i-th successfully sent request with the i-th response received, for one i -- also when callers abandon "
               "requests that are on the wire (per-request timeout or cancellation: the future keeps its place in the FIFO "
               "and swallows its own late response); every Send returns exactly once; no panic (after the fix; refuted for "
